@@ -38,6 +38,7 @@ def dispatch (line : String) : String :=
       | "c10" => handleC10 f
       | "c11" => handleC11 f
       | "c12" => handleC12 f
+      | "c12n" => handleC12n f
       | "c13" => handleC13 f
       | "c14" => handleC14 f
       | "c15" => handleC15 f
